@@ -51,6 +51,7 @@ func (s spec) String() string {
 }
 
 var tagT = log.RegisterTag("_c20_t")
+var tagU = log.RegisterTag("_c20_u")
 
 func init() {
 	log.RegisterTimeRotation("1s", log.TimeRotation{Interval: time.Second})
@@ -91,6 +92,15 @@ func TestC20_Child(t *testing.T) {
 	case "consolelogger":
 		m["appender.unused.type"] = "Discard"
 		m["logger.l.type"], m["logger.l.layout.type"] = "Console", s.Layout
+	case "twofiles": // two loggers, each with its own File appender, collect their lines in one file
+		for _, a := range []string{"a", "b"} {
+			m["appender."+a+".type"], m["appender."+a+".fileDir"], m["appender."+a+".fileName"], m["appender."+a+".layout.type"] = "File", s.Dir, "out.log", s.Layout
+		}
+		m["logger.l.type"], m["logger.l.appenderRef.ref"] = "Logger", "a"
+		m["logger.u.type"], m["logger.u.tags"], m["logger.u.appenderRef.ref"] = "Logger", "_c20_u", "b"
+	case "restarted-file", "restarted-rolling": // configured below: an appender value stopped and started again
+		m["appender.unused.type"] = "Discard"
+		m["logger.l.type"], m["logger.l.appenderRef.ref"] = "Logger", "unused"
 	case "file+loggerlayout": // the logger formats, the appender receives bytes
 		m["appender.a.type"], m["appender.a.fileDir"], m["appender.a.fileName"] = "File", s.Dir, "out.log"
 		m["logger.l.type"], m["logger.l.appenderRef.ref"], m["logger.l.layout.type"] = "Logger", "a", s.Layout
@@ -105,6 +115,50 @@ func TestC20_Child(t *testing.T) {
 	if err := log.Refresh(m); err != nil {
 		fmt.Fprintln(os.Stderr, "C20-CHILD-REFRESH-FAILED", err)
 		os.Exit(8)
+	}
+	// emit is the log call under test
+	emit := func(g, i int, pad string, crc uint32) {
+		tg := tagT
+		if s.Kind == "twofiles" && (g+i)%2 == 1 {
+			tg = tagU
+		}
+		log.Info(context.Background(), tg, log.Int("g", g), log.Int("seq", i), log.String("pad", pad), log.Uint("crc", crc))
+	}
+	if strings.HasPrefix(s.Kind, "restarted-") {
+		// the appender is used directly: started, used, stopped (a log file was rotated away by an
+		// outside tool, say) and the same value started again - what it acknowledges after that
+		// is in the file like before
+		var lay log.Layout = &log.TextLayout{BaseLayout: log.BaseLayout{FileLineLength: 48}}
+		if s.Layout == "JSONLayout" {
+			lay = &log.JSONLayout{BaseLayout: log.BaseLayout{FileLineLength: 48}}
+		}
+		var app log.Appender
+		if s.Kind == "restarted-file" {
+			app = &log.FileAppender{AppenderBase: log.AppenderBase{Name: "a"}, Layout: lay, FileDir: s.Dir, FileName: "out.log"}
+		} else {
+			app = &log.RollingFileAppender{AppenderBase: log.AppenderBase{Name: "a"}, Layout: lay, FileDir: s.Dir, FileName: "out.log", Rotation: log.TimeRotation{Interval: time.Second}, MaxAge: 10}
+		}
+		for cycle := 0; cycle < 1+s.Pad%2; cycle++ {
+			if err := app.Start(); err != nil {
+				fmt.Fprintln(os.Stderr, "C20-CHILD-REFRESH-FAILED", err)
+				os.Exit(8)
+			}
+			e := log.GetEvent()
+			e.Level, e.Time, e.Tag, e.Fields = log.InfoLevel, time.Now(), "_c20_t", []log.Field{log.String("warmup", "x")}
+			app.Append(e)
+			app.Stop()
+		}
+		if err := app.Start(); err != nil {
+			fmt.Fprintln(os.Stderr, "C20-CHILD-REFRESH-FAILED", err)
+			os.Exit(8)
+		}
+		emit = func(g, i int, pad string, crc uint32) {
+			e := log.GetEvent()
+			e.Level, e.Time, e.Tag = log.InfoLevel, time.Now(), "_c20_t"
+			e.Fields = []log.Field{log.Int("g", g), log.Int("seq", i), log.String("pad", pad), log.Uint("crc", crc)}
+			app.Append(e)
+			log.PutEvent(e)
+		}
 	}
 	var from, until time.Time
 	if s.Straddle {
@@ -128,7 +182,7 @@ func TestC20_Child(t *testing.T) {
 			for i := 0; i < s.N || (s.Straddle && i < 50000 && time.Now().Before(until)); i++ {
 				pad := strings.Repeat(string(rune('a'+(g+i)%26)), (s.Pad*(i+1))%3000)
 				crc := crc32.ChecksumIEEE([]byte(strconv.Itoa(g) + "/" + strconv.Itoa(i) + "/" + pad))
-				log.Info(context.Background(), tagT, log.Int("g", g), log.Int("seq", i), log.String("pad", pad), log.Uint("crc", crc))
+				emit(g, i, pad, crc)
 				if s.Straddle {
 					// the crash comes after the last call: the returned calls are reported together
 					// at the end, which keeps the goroutines dense around the boundary
@@ -280,7 +334,7 @@ func TestC20_CrashPoints(t *testing.T) {
 		for i := 0; i < B; i++ {
 			l := fmt.Sprintf("s%d", i)
 			s := spec{
-				Kind:   rapid.SampledFrom([]string{"file", "rolling", "console", "filelogger", "rollinglogger", "consolelogger", "file+loggerlayout", "rolling+loggerlayout", "console+loggerlayout", "rolling", "rollinglogger"}).Draw(t, l+"kind"),
+				Kind:   rapid.SampledFrom([]string{"file", "rolling", "console", "filelogger", "rollinglogger", "consolelogger", "file+loggerlayout", "rolling+loggerlayout", "console+loggerlayout", "rolling", "rollinglogger", "twofiles", "restarted-file", "restarted-rolling"}).Draw(t, l+"kind"),
 				Layout: rapid.SampledFrom([]string{"TextLayout", "JSONLayout"}).Draw(t, l+"layout"),
 				G:      rapid.IntRange(1, 4).Draw(t, l+"G"),
 				N:      rapid.SampledFrom([]int{1, 5, 30, 200, 1500}).Draw(t, l+"N"),
